@@ -661,6 +661,8 @@ func init() {
 			{Name: "general-k4", Space: corridorSpace(4, grid5, []int{10}, true), Eval: evalC19, BudgetS: 5, HeapMB: 256,
 				Bound: "every well-formed stack of 1..4 rectangles with sides on a 5-value grid (equal edges, widening and narrowing on both sides included) x 6 start x 6 end positions in general position (not collinear with two corridor vertices or with a vertex and the other end point)"},
 		}
+		ps = append(ps, &Pass{Name: "general-k3-wide", Space: corridorSpaceD(3, []int{0, 60, 120, 180, 240}, []int{10}, true, true), Eval: evalC19, BudgetS: 5, HeapMB: 256,
+			Bound: "every well-formed stack of 1..3 rectangles with sides on {0,60,120,180,240} and height 10 (shallow segments that leave a narrow first/last rectangle sideways) x 15 x 15 general-position end points"})
 		if tier == "thorough" {
 			ps = append(ps,
 				&Pass{Name: "general-k5", Space: corridorSpace(5, grid5, []int{10}, true), Eval: evalC19, BudgetS: 5, HeapMB: 256,
@@ -679,7 +681,15 @@ func init() {
 			{Name: "fit-k4", Space: corridorSpace(4, grid5, []int{10}, true), Eval: evalC20Fit, BudgetS: 5, HeapMB: 256,
 				Bound: "every corridor of the C19 general-position space (k<=4) whose (correct) shortest path has >= 3 points: spline fitted, 401 samples per piece"},
 		}
+		// wide corridors: horizontal sides much longer than the rectangles are high, so that a path piece runs a long way
+		// next to a side whose two corners both lie beyond the piece's own horizontal extent (the containment test must
+		// still see that side), and end points close to a horizontal side
+		wide := []int{0, 60, 120, 180, 240}
+		ps = append(ps, &Pass{Name: "fit-k3-wide", Space: corridorSpaceD(3, wide, []int{10}, true, true), Eval: evalC20Fit, BudgetS: 5, HeapMB: 256,
+			Bound: "every well-formed stack of 1..3 rectangles with sides on {0,60,120,180,240} and height 10 (aspect ratios up to 24:1) x 15 x 15 general-position end points: spline fitted, 401 samples per piece"})
 		if tier == "thorough" {
+			ps = append(ps, &Pass{Name: "fit-k4-wide", Space: corridorSpaceD(4, wide, []int{10, 25}, true, false), Eval: evalC20Fit, BudgetS: 5, HeapMB: 256,
+				Bound: "stacks of 1..4 rectangles with sides on {0,60,120,180,240} and heights from {10,25} x 6 x 6 general-position end points"})
 			ps = append(ps, &Pass{Name: "fit-k5", Space: corridorSpace(5, grid5, []int{10}, true), Eval: evalC20Fit, BudgetS: 5, HeapMB: 256,
 				Bound: "corridors with up to 5 rectangles"},
 				&Pass{Name: "fit-k3-heights", Space: corridorSpace(3, grid6, []int{4, 10}, true), Eval: evalC20Fit, BudgetS: 5, HeapMB: 256,
